@@ -291,6 +291,12 @@ func (c *Ctx) GuardedBy(g GuardSpec) {
 		if g.ReturnsHolding[shortName(fn)] != "" {
 			continue
 		}
+		if !g.Locked[shortName(fn)] && !g.Locked[shortName(topFunc(fn))] && fn.Parent() == nil {
+			if c.strictUnlock == nil {
+				c.strictUnlock = map[*ssa.Function]bool{}
+			}
+			c.strictUnlock[fn] = true
+		}
 		c.lockBalance(g.Label, g.Mu, fn)
 	}
 	// call sites of "caller must hold" helpers
@@ -487,6 +493,9 @@ func (c *Ctx) lockBalanceFrom(label string, mu *types.Var, fn *ssa.Function, ent
 			case *ssa.Call:
 				if mv, d := mutexOfCall(&x.Call); mv != nil && sameField(mv, mu) {
 					base := lockBaseOf(x.Call.Args[0])
+					if d < 0 && !held && base != nil && c.strictUnlock[fn] {
+						leaks = append(leaks, ins)
+					}
 					if d > 0 && held && base != nil && heldBase[b.Index] == base {
 						leaks = append(leaks, ins)
 					}
@@ -532,6 +541,12 @@ func (c *Ctx) lockBalanceFrom(label string, mu *types.Var, fn *ssa.Function, ent
 			continue
 		}
 		reported[l] = true
+		if call, isCall := l.(*ssa.Call); isCall {
+			if _, d := mutexOfCall(&call.Call); d < 0 {
+				c.violate(l, fn, label+"/lock-balance", fmt.Sprintf("%s: %s releases %s on a point where no path has acquired it (an acquire is missing)", label, shortName(fn), mu.Name()), nil)
+				continue
+			}
+		}
 		if _, isRet := l.(*ssa.Return); !isRet {
 			c.violate(l, fn, label+"/lock-balance", fmt.Sprintf("%s: %s acquires %s on a path on which it already holds it (self-deadlock: an earlier release is missing)", label, shortName(fn), mu.Name()), nil)
 			continue
